@@ -223,7 +223,7 @@ Definition conf_pred (fl : flags) (cf : config) : gstate -> bool :=
   if racy cf && negb (fl_busy_guard fl) then state_ok fl cf else state_ok_strict fl cf.
 
 (* the code before the repair (update_file / unload_file without the busy guard) *)
-Definition old_flags : flags := mkFlags false true false true false true true true false.
+Definition old_flags : flags := mkFlags false true false true false true true true true false.
 
 Definition check_universe (fl : flags) (U : list config) (fuel : nat) : bool :=
   forallb (fun cf => check_conf fl cf (conf_pred fl cf) fuel) U.
